@@ -59,6 +59,18 @@ let contains sub s =
   let rec go i = i + n <= m && (String.sub s i n = sub || go (i + 1)) in
   go 0
 
+module Str_replace = struct
+  let all pat rep s =
+    let n = String.length pat in
+    let b = Buffer.create (String.length s) in
+    let i = ref 0 in
+    while !i < String.length s do
+      if !i + n <= String.length s && String.sub s !i n = pat then (Buffer.add_string b rep; i := !i + n)
+      else (Buffer.add_char b s.[!i]; incr i)
+    done;
+    Buffer.contents b
+end
+
 let counts = Hashtbl.create 16
 let bump k = Hashtbl.replace counts k (1 + (try Hashtbl.find counts k with Not_found -> 0))
 
@@ -91,6 +103,25 @@ let run_parse k flags hex lines =
    | _ ->
      if not (List.exists (fun l -> starts_with "MONITOR" l) lines) then
        Printf.printf "DIFF %d model=[%s] impl=<no result line>\n" k model);
+  (* C04: the implementation's report against the independent RFC reference decoder *)
+  if oracle "C04" && flags = 0 then begin
+    let norm_null t = Str_replace.all "=~" "=b:" t in
+    match get "R " with
+    | [g] ->
+      let impl_ok = starts_with "0 " g in
+      (match ref_decode bs with
+       | Some rf ->
+         if impl_ok then begin
+           let want = dump_rec (norm_ref rf.rf_rec) in
+           let got = norm_null (after "0 " g) in
+           bump "ref-compared";
+           if got <> want then Printf.printf "FAIL %d ref-mismatch impl=[%s] ref=[%s]\n" k got want
+         end else if ref_strict bs then
+           Printf.printf "FAIL %d ref-accepts status=%s but the message is well-formed in the supported subset: ref=[%s]\n" k g (dump_rec (norm_ref rf.rf_rec))
+         else bump "both-reject-or-unsupported"
+       | None -> if impl_ok then (bump "parser-lenient(ref-rejects)"; if Sys.getenv_opt "WIRE_DEBUG" <> None then Printf.printf "NOTE %d lenient %s\n" k g) else bump "both-reject")
+    | _ -> ()
+  end;
   (* C03: implementation-only round trip of what the parser produced *)
   if oracle "C03" then begin
     match get "R ", get "W " with
